@@ -259,7 +259,7 @@ def check_ops(tr, curve, ops):
 
 
 # ---- generation -------------------------------------------------------------------------------------
-ALPHABETS = {"full": ic.full_alphabet, "mid": ic.mid_alphabet}
+ALPHABETS = {"full": ic.full_alphabet, "mid": ic.mid_alphabet, "intlike": ic.intlike_alphabet}
 SAMPLE_EVERY = 97
 
 
@@ -269,6 +269,7 @@ def families(ctx):
     for tr in (False, True):
         fams += [("full<=2", "full", n, tr, False) for n in (1, 2)]
         fams += [("mid<=2(curves)", "mid", n, tr, True) for n in (1, 2)]
+        fams += [("intlike<=3", "intlike", n, tr, False) for n in (1, 2, 3)]
         if ctx.thorough:
             fams += [("full<=2(curves)", "full", n, tr, True) for n in (1, 2)]
             fams += [("mid=3", "mid", 3, tr, False)]
@@ -288,9 +289,9 @@ def decode_probes(inp):
     return pk, pi
 
 
-def run_one(tr, curve, ops, keep_text, seen, state_probes=False):
+def run_one(tr, curve, ops, keep_text, seen, state_probes=False, pk=None):
     """-> (input, digest, text or None, violations); the oracle runs once per distinct final state"""
-    pk, pi = ic.PROBE_KEYS, ic.PROBE_INTS
+    pk, pi = (pk or ic.PROBE_KEYS), ic.PROBE_INTS
     if state_probes:
         sim = ic.Sim(tr, curve)
         for o in ops:
@@ -316,7 +317,8 @@ def work_chunk(job):
     for rest in itertools.product(alpha, repeat=length - 1):
         ops = ic.instantiate([alpha[first]] + list(rest), curve)
         keep = len(out["cases"]) % SAMPLE_EVERY == 0
-        inp, dig, text, viol = run_one(tr, curve, ops, keep, out["seen"])
+        inp, dig, text, viol = run_one(tr, curve, ops, keep, out["seen"],
+                                       pk=ic.INTLIKE_PROBE_KEYS if alpha_name == "intlike" else None)
         if keep:
             out["texts"].append((len(out["cases"]), text))
         out["cases"].append((inp, dig))
@@ -381,7 +383,8 @@ def run(ctx):
     res.rule = ("operation sequences over names {A,a,B,'',' ',A:1} x positions {0,1,-1,99(end),-99}: every sequence of "
                 "length <= 2 over the full alphabet (%d ops: append, insert, delete by key/index, replace by key/index, "
                 "value assignment, get(add=True), setattr, assign_duplicate_suffixes, rename), mid alphabet (%d ops) on "
-                "curve sections%s, random sequences up to length 30, x mnemonic_transforms on/off; heavy probes after "
+                "curve sections%s, every sequence of length <= 3 over the integer-like family (mnemonics '1','0','-1' at positions "
+                "they do not spell, int keys 0/1/-1 for get/del/set/in), random sequences up to length 30 (names incl. '1','0','-1'), x mnemonic_transforms on/off; heavy probes after "
                 "the last step; distinct_nontrivial = distinct final states (original/session name lists x flag x "
                 "item kind) on which the direct oracle was evaluated for all probe keys"
                 % (len(ic.full_alphabet()), len(ic.mid_alphabet()), " and length 3" if ctx.thorough else ""))
